@@ -79,10 +79,11 @@ def check(ctx):
     ctx.require(removes, 'victim removal in the scan')
 
     def general_failed(edge):
-        return edge.kind == 'false' and edge.src.kind == 'test' and any(
-            K.is_meth(c, 'put') and K.recv_text(c) == 'self' and c.args
-            and N.txt(c.args[0]) == var for c in K.calls(edge.src.ast)) \
-            and edge.src.ast in [c for c in K.calls(edge.src.ast)]
+        for atom in nz.facts_of_edge(edge):
+            if atom.key[0] == 'truth' and not atom.key[2] and \
+                    atom.key[1] == 'self.put(%s)' % var:
+                return True
+        return False
     ctx.ob('C07.2', func, scan,
            K.guarded_by(graph, scan, general_failed, start=head),
            'the victim scan starts only after self.put(%s) failed' % var,
@@ -140,7 +141,7 @@ def check(ctx):
                'the victim is recorded in %s before it is removed' % mname,
                construct='record before removal')
     val = mnode.ast.value
-    vtxt = N.txt(val)
+    vtxt = K.rtxt(func, val)
     ctx.ob('C07.3', func, mnode,
            '%s.placement_expiry' % victim in vtxt and 'server' in vtxt,
            'the record holds the victim server and expiry: %s' % vtxt,
@@ -152,9 +153,9 @@ def check(ctx):
     ctx.ob('C07.3', func, mtests[0] if mtests else head, len(mtests) == 1,
            'the loop looks the current instance up in %s' % mname,
            construct='%s in %s' % (var, mname))
-    general = [n for n in body if n.kind == 'test' and any(
+    general = [n for n in body if any(
         K.is_meth(c, 'put') and K.recv_text(c) == 'self' and c.args and
-        N.txt(c.args[0]) == var for c in K.calls(n.ast))]
+        N.txt(c.args[0]) == var for c in C.node_calls(n))]
     ctx.require(general, 'general placement self.put(%s)' % var)
     for mtest in mtests:
         def restores(node):
